@@ -149,7 +149,12 @@ class Model:
                 if target is None:
                     rejected[imp["line"]] = (f, sorted(reasons))
                     continue
-                edges[f][imp["alias"]] = target
+                # an import inside a function body binds a local name: it makes the target
+                # reachable like any other import, but `file.alias` cannot see it
+                if imp.get("local"):
+                    edges[f]["@" + imp["alias"]] = target
+                else:
+                    edges[f][imp["alias"]] = target
                 if target not in reachable:
                     reachable.append(target)
                     todo.append(target)
@@ -169,7 +174,7 @@ class Model:
 # ------------------------------------------------------------------------------------------
 # rendering a spec into a tree
 
-def render_file(spec, path, edges_ok_chains, real_root):
+def render_file(spec, path, edges_ok_chains, real_root, rejected_lines=()):
     info = spec["files"][path]
     if info.get("garbage"):
         return GARBAGE
@@ -184,7 +189,15 @@ def render_file(spec, path, edges_ok_chains, real_root):
         if arg.startswith(ROOT + "/"):
             arg = real_root + arg[len(ROOT):]
         arg = arg.replace("\\", "\\\\")
-        lines[imp["line"]] = '%s :: %s("%s");' % (imp["alias"], directive, arg)
+        if imp.get("local"):
+            # inside a function body (four lines are reserved around the import's line)
+            n = imp["line"]
+            lines[n - 1] = "lf_%s :: () -> i64 {" % imp["alias"]
+            lines[n] = '    %s :: %s("%s");' % (imp["alias"], directive, arg)
+            lines[n + 1] = "    0" if n in rejected_lines else "    %s.id" % imp["alias"]
+            lines[n + 2] = "}"
+        else:
+            lines[imp["line"]] = '%s :: %s("%s");' % (imp["alias"], directive, arg)
     last = max(lines)
     body = []
     for n in range(first_free, last + 1):
@@ -192,6 +205,8 @@ def render_file(spec, path, edges_ok_chains, real_root):
     text = top + "\n".join(body) + "\n"
     if is_main:
         stmts = "".join("    emit(%s.id);\n" % ".".join(c) for c in edges_ok_chains)
+        stmts += "".join("    emit(lf_%s());\n" % imp["alias"] for imp in info["imports"]
+                         if imp.get("local") and imp["line"] not in rejected_lines)
         text += "main :: () -> i32 {\n    emit(id);\n%s    %d\n}\n" % (stmts, spec["status"])
     return text
 
@@ -208,7 +223,7 @@ def materialise(bx, spec):
     for p, content in spec.get("raw", {}).items():
         tree[p] = content
     for p in spec["files"]:
-        tree[p] = render_file(spec, p, chains, bx.root)
+        tree[p] = render_file(spec, p, chains, bx.root, set(rejected))
     bx.write_tree(tree, base=bx.root)
     return model, reachable, rejected, edges, chains
 
@@ -325,9 +340,13 @@ def gen_world(rnd, valid_only=None):
 
     def add_import(importer, kind, arg):
         alias_n[0] += 1
-        line[0] += rnd.randint(1, 2)
-        files[importer]["imports"].append(
-            {"alias": "i%d" % alias_n[0], "kind": kind, "arg": arg, "line": line[0]})
+        local = rnd.random() < 0.2
+        line[0] += rnd.randint(1, 2) + (1 if local else 0)
+        imp = {"alias": "i%d" % alias_n[0], "kind": kind, "arg": arg, "line": line[0]}
+        if local:
+            imp["local"] = True       # written inside a function body
+            line[0] += 2
+        files[importer]["imports"].append(imp)
 
     importers = sorted(p for p in files if not files[p].get("garbage") and not Model.inside(p, OUT)
                        and not Model.inside(p, OUT2))
@@ -391,7 +410,7 @@ def gen_world(rnd, valid_only=None):
     for _ in range(rnd.randint(2, 6)):
         f, chain = entry, []
         for _ in range(rnd.randint(1, 3)):
-            nxt = sorted(edges.get(f, {}))
+            nxt = sorted(a for a in edges.get(f, {}) if not a.startswith("@"))
             if not nxt:
                 break
             a = rnd.choice(nxt)
@@ -452,7 +471,10 @@ def run_world(bx, spec, world, want_run=True):
         "reachable": reachable,
         "rejected": {str(k): v for k, v in rejected.items()},
         "output": "".join("%d\n" % v for v in
-                          [1] + [model.chain_value(edges, c) for c in chains]),
+                          [1] + [model.chain_value(edges, c) for c in chains]
+                          + [spec["files"][edges["%s/main.capy" % CWD]["@" + imp["alias"]]]["id"]
+                             for imp in spec["files"]["%s/main.capy" % CWD]["imports"]
+                             if imp.get("local") and imp["line"] not in rejected]),
         "status": spec["status"],
     }
     return expected, obs
